@@ -45,8 +45,8 @@ def main():
     # the renaming stages keep per-signature state (taken identifiers, retry loops): every pattern list of the C16 model up to
     # length 2 that contains an interaction symbol (names equal to the function's, to a would-be generated or would-be renamed
     # one) joins the corpus, so that such state leaking from one invocation into the next shows as order dependence
-    pcases, _ = vf.mc_cases(chk, "MC_C16", actions=["Simplify", "LiftInner", "Autogenerate", "GenDone", "FixIdentConflicts", "Finish"])
-    inter = {"fnname", "fnname_", "rawfn", "gnext", "gprev", "ugnext", "ugprev", "liftfn", "liftfn_", "wild", "tup2"}
+    pcases, _ = vf.mc_cases(chk, "MC_C16", actions=["Simplify", "LiftInner", "Autogenerate", "GenDone", "FixIdentConflicts", "FixDone", "FixImplParamConflicts", "Finish"])
+    inter = {"fnname", "fnname_", "rawfn", "gnext", "gprev", "ugnext", "ugprev", "liftfn", "liftfn_", "wild", "tup2", "implname"}
     pick = [c for c in pcases if inter & set(c["list"])]
     prng = random.Random(vf.seed())
     prng.shuffle(pick)
